@@ -18,5 +18,7 @@ func (c *Conn) vUse(ev string, o interface{})       {}
 func (c *Conn) vHdr(ev string, h header)            {}
 func (c *Conn) vCtl(ev string, op opcode, p []byte) {}
 func (m *mu) vEv(ev string, a int64)                {}
+func (c *Conn) vNcNew(r, w *mu, re, we *int64)      {}
+func vNcEntry(expired *int64)                       {}
 func vCtxID(ctx context.Context) int64              { return 0 }
 func vB(b bool) int64                               { return 0 }
